@@ -30,8 +30,19 @@ type vSer interface {
 	io.ReaderFrom
 }
 
-// vStreamState builds a populated index of the given serialisable kind
+// vStreamState builds an index of the given serialisable kind: populated, or (when not populated) fresh
+// — for the trainable kinds that means untrained
 func vStreamState(kind int, populated bool) vSer {
+	st := 0
+	if populated {
+		st = 2
+	}
+	return vStreamStateM(kind, st, L2Squared)
+}
+
+// state 0: fresh (untrained); 1: trained but empty (= fresh for the kinds without training); 2: populated
+func vStreamStateM(kind int, state int, metric DistanceKind) vSer {
+	populated := state == 2
 	vPQM, vPQNbits, vPQConcreteCB = 2, 1, true
 	switch kind {
 	case vSBM25:
@@ -53,11 +64,11 @@ func vStreamState(kind int, populated bool) vSer {
 	if kind == vSIVF || kind == vSIVFPQ {
 		nlist = 2
 	}
-	if !populated {
-		return vFreshLike(kind, L2Squared, 2, nlist)
+	if state == 0 {
+		return vFreshLike(kind, metric, 2, nlist)
 	}
-	u := vMakeIndexC(kind, L2Squared, 2, nlist, false)
-	for i := 0; i < 3; i++ {
+	u := vMakeIndexC(kind, metric, 2, nlist, false)
+	for i := 0; i < 3 && populated; i++ {
 		vAssert(u.idx.Add(*NewVectorNodeWithID(vIDs[i], vCopy(vConcreteVecs[i]))) == nil, "add-ok")
 	}
 	return u.idx
@@ -82,8 +93,11 @@ func vStreamFresh(kind int) vSer {
 func H_C16_truncate() {
 	kind := vChoose("kind", vSKinds)
 	vTag("kind=" + vSNames[kind])
-	populated := vChoose("populated", 2) == 1
-	src := vStreamState(kind, populated)
+	state := vChoose("state", 3)
+	if state == 1 && (kind == vSFlat || kind == vSHNSW || kind == vSBM25 || kind == vSMeta) {
+		vAssume(false) // no training: same stream as state 0
+	}
+	src := vStreamStateM(kind, state, L2Squared)
 	buf := vNewBuf()
 	n, err := src.WriteTo(buf)
 	vAssert(err == nil && int(n) == len(buf.b), "write-ok")
@@ -147,7 +161,32 @@ func H_C16_truncate_hybrid() {
 func H_C16_mismatch() {
 	kind := vChoose("kind", vSKinds)
 	vTag("kind=" + vSNames[kind])
-	src := vStreamState(kind, true)
+	what := vChoose("mismatch", 4)
+	par := 0
+	if what == 2 {
+		par = vChoose("param", 4)
+	}
+	// the writer's state: fresh (untrained), trained-empty, populated; its metric is varied where the
+	// metric is the parameter that differs
+	state := 2
+	if what != 3 {
+		state = vChoose("state", 3)
+		if state == 1 && (kind == vSFlat || kind == vSHNSW || kind == vSBM25 || kind == vSMeta) {
+			vAssume(false)
+		}
+	}
+	srcMetric, dstMetric := L2Squared, Cosine
+	if what == 2 && par == 1 && kind < vSBM25 {
+		si := vChoose("src_metric", 3)
+		di := vChoose("dst_metric", 2)
+		if di >= si {
+			di++
+		}
+		srcMetric, dstMetric = vMetrics[si], vMetrics[di]
+		vTag("metrics=" + string(srcMetric) + "->" + string(dstMetric))
+	}
+	vTag(vName("state", state))
+	src := vStreamStateM(kind, state, srcMetric)
 	buf := vNewBuf()
 	_, err := src.WriteTo(buf)
 	vAssert(err == nil, "write-ok")
@@ -158,7 +197,7 @@ func H_C16_mismatch() {
 		vAssert(e == nil, "constructor")
 		return x
 	}
-	switch what := vChoose("mismatch", 4); what {
+	switch what {
 	case 0: // receiver of another kind
 		other := vChoose("other_kind", vSKinds-1)
 		if other >= kind {
@@ -171,14 +210,13 @@ func H_C16_mismatch() {
 		dst = vStreamFresh(kind)
 		vTag("version")
 	case 2: // receiver differing in exactly one construction parameter
-		par := vChoose("param", 4)
 		switch kind {
 		case vSFlat:
 			switch par {
 			case 0:
 				dst = mk(func() (VectorIndex, error) { return NewFlatIndex(3, L2Squared) })
 			case 1:
-				dst = mk(func() (VectorIndex, error) { return NewFlatIndex(2, Cosine) })
+				dst = mk(func() (VectorIndex, error) { return NewFlatIndex(2, dstMetric) })
 			default:
 				vAssume(false)
 			}
@@ -187,7 +225,7 @@ func H_C16_mismatch() {
 			case 0:
 				dst = mk(func() (VectorIndex, error) { return NewHNSWIndex(3, L2Squared, 2, 8, 8) })
 			case 1:
-				dst = mk(func() (VectorIndex, error) { return NewHNSWIndex(2, Euclidean, 2, 8, 8) })
+				dst = mk(func() (VectorIndex, error) { return NewHNSWIndex(2, dstMetric, 2, 8, 8) })
 			case 2:
 				dst = mk(func() (VectorIndex, error) { return NewHNSWIndex(2, L2Squared, 3, 8, 8) })
 			case 3:
@@ -202,7 +240,7 @@ func H_C16_mismatch() {
 			case 0:
 				dst = mk(func() (VectorIndex, error) { return NewIVFIndex(3, 2, L2Squared) })
 			case 1:
-				dst = mk(func() (VectorIndex, error) { return NewIVFIndex(2, 2, Cosine) })
+				dst = mk(func() (VectorIndex, error) { return NewIVFIndex(2, 2, dstMetric) })
 			case 2:
 				dst = mk(func() (VectorIndex, error) { return NewIVFIndex(2, 3, L2Squared) })
 			default:
@@ -213,7 +251,7 @@ func H_C16_mismatch() {
 			case 0:
 				dst = mk(func() (VectorIndex, error) { return NewPQIndex(4, L2Squared, 2, 1) })
 			case 1:
-				dst = mk(func() (VectorIndex, error) { return NewPQIndex(2, Cosine, 2, 1) })
+				dst = mk(func() (VectorIndex, error) { return NewPQIndex(2, dstMetric, 2, 1) })
 			case 2:
 				dst = mk(func() (VectorIndex, error) { return NewPQIndex(2, L2Squared, 1, 1) })
 			case 3:
@@ -224,7 +262,7 @@ func H_C16_mismatch() {
 			case 0:
 				dst = mk(func() (VectorIndex, error) { return NewIVFPQIndex(2, L2Squared, 3, 2, 1) })
 			case 1:
-				dst = mk(func() (VectorIndex, error) { return NewIVFPQIndex(2, Cosine, 2, 2, 1) })
+				dst = mk(func() (VectorIndex, error) { return NewIVFPQIndex(2, dstMetric, 2, 2, 1) })
 			case 2:
 				dst = mk(func() (VectorIndex, error) { return NewIVFPQIndex(2, L2Squared, 2, 1, 1) })
 			case 3:
